@@ -254,6 +254,28 @@ def cli_lane(pid, tier, seed, agg, meta, profiles=("debug", "release")):
                     rep["violations"].append({"monitor": "c18.chain", "sig": "chain", "rule": r2, "data": {"first_rule": r1, "first_data": d1},
                                               "expected": {"stdout_lines": want}, "got": {"exit1": rc1, "exit2": rc2, "stdout2": out2.decode("utf8", "replace")[:500], "stderr2": err2.decode("utf8", "replace")[:300]},
                                               "note": "piping the output into a second invocation differs from evaluating on the parsed output", "lane": "cli-" + profile, "direct": False, "count": 1})
+        # exit status 0 must mean that the result line was delivered: with a stdout that cannot be
+        # written (/dev/full) a successful evaluation must not end with status 0
+        if pid == "C18":
+            m = mons.setdefault("c18.write-failure", {"observed": 0, "judged": 0, "unjudged": 0, "violations": 0})
+            wf = [(r, d) for (r, d), o in zip(pairs, oracle) if "ok" in o["ret"] and len(r) < 2000 and len(d) < 2000 and "\x00" not in r + d][:12]
+            for r, d in wf:
+                argv = [binary] + (["--"] if r.startswith("-") or d.startswith("-") else []) + [r, d]
+                try:
+                    with open("/dev/full", "wb") as full:
+                        p = subprocess.run(argv, stdin=subprocess.DEVNULL, stdout=full, stderr=subprocess.PIPE, timeout=30)
+                    rc = p.returncode
+                except subprocess.TimeoutExpired:
+                    rc = None
+                rep["evaluations"] += 1
+                m["observed"] += 1
+                m["judged"] += 1
+                hashes.add(hkey("devfull", r, d))
+                rep["cells"]["stdout-unwritable"] = rep["cells"].get("stdout-unwritable", 0) + 1
+                if rc == 0:
+                    m["violations"] += 1
+                    rep["violations"].append({"monitor": "c18.write-failure", "sig": "exit-zero-without-result-line", "rule": r, "data": d, "expected": "a non-zero exit status when the result line cannot be written",
+                                              "got": {"exit": rc}, "note": "exit status 0 although no result line was delivered (stdout = /dev/full)", "lane": "cli-" + profile, "direct": False, "count": 1})
         # data typed on a terminal: stdin is a tty (pty), not a pipe or a file
         if pid == "C18":
             import pty
